@@ -1,0 +1,31 @@
+//go:build verif
+
+// Contracts for the govc verifier (see /verif/DESIGN.md). Comment-only file: with the
+// "verif" build tag off it is not compiled; with it on it contains only the package clause.
+
+package estargz
+
+// Decompressor values handed to Open via options are configuration, not attacker input:
+// they are assumed non-nil, and their FooterSize is a small non-negative constant
+// (proved for every implementation in this repository, assumed for foreign ones).
+//@ type Decompressor
+//@   nonnil
+//@ func interface estargz.Decompressor.FooterSize
+//@   ensures 0 <= result && result <= 1<<16
+
+//@ func positive
+//@   props C04
+//@   ensures[C04] result == max(n, 0)
+//@ func (gz *GzipDecompressor) FooterSize
+//@   props C04
+//@ func (gz *LegacyGzipDecompressor) FooterSize
+//@   props C04
+//@ func (gz *GzipDecompressor) ParseFooter
+//@   props C04
+//@ func (gz *LegacyGzipDecompressor) ParseFooter
+//@   props C04
+//@ func OpenFooter
+//@   props C04
+//@ func Open
+//@   props C04
+//@   requires forall i int :: 0 <= i && i < len(opt) ==> opt[i] != nil
